@@ -1,6 +1,6 @@
 #!/usr/bin/env python3
 """BOUNDED stand-in (not a proof) for C03: decision tables with one number input A, 1..3 rules whose input entry is `1`, `2` or `-`,
-one or two output clauses with two possible values each, every hit policy (U A P F R O C C+ C# C< C>), evaluated for A = 1, 2, 3 on the
+one or two output clauses with two possible values each (single output also with the allowed input values 1,2 declared), every hit policy (U A P F R O C C+ C# C< C>), evaluated for A = 1, 2, 3 on the
 real code (replay driver) and compared with the hit policy semantics of DMN 1.3 section 8.2.8 written out here in Python.
 
 usage: hpdiff.py      prints `hpdiff cases=N failures=M` and up to five FAIL lines; exit 0 / 2."""
@@ -21,7 +21,7 @@ XV = ['"H"', '"L"']
 YV = ['20', '10']
 
 
-def model(policy, hp, agg, compound, numeric):
+def model(policy, hp, agg, compound, numeric, in_values=False):
     """all rule configurations as decisions D0.. of one model; returns (xml, [(name, rules)])"""
     decs = []
     parts = ['<?xml version="1.0" encoding="UTF-8"?>',
@@ -40,7 +40,7 @@ def model(policy, hp, agg, compound, numeric):
                 p = ['  <decision name="%s" id="_%s"><variable name="%s"/>' % (name, name, name),
                      '    <informationRequirement id="_ir%s"><requiredInput href="#_a"/></informationRequirement>' % name,
                      '    <decisionTable hitPolicy="%s"%s outputLabel="%s">' % (hp, (' aggregation="%s"' % agg) if agg else '', name),
-                     '      <input><inputExpression typeRef="number"><text>A</text></inputExpression></input>']
+                     '      <input><inputExpression typeRef="number"><text>A</text></inputExpression>%s</input>' % ('<inputValues><text>1,2</text></inputValues>' if in_values else '')]
                 if compound:
                     p.append('      <output name="X"><outputValues><text>%s</text></outputValues></output>' % ','.join(XV))
                     p.append('      <output name="Y"><outputValues><text>%s</text></outputValues></output>' % ','.join(YV))
@@ -69,8 +69,10 @@ def show(outs, compound):
     return outs[0]
 
 
-def expected(policy, rules, a, compound):
+def expected(policy, rules, a, compound, in_values=False):
     m = [o for (i, o) in rules if i == '-' or i == str(a)]
+    if in_values and a not in (1, 2):
+        m = []   # a value outside the allowed input values matches no rule, not even one whose entry is `-`
     if not m:
         return 'null'
     if policy == 'U':
@@ -102,11 +104,11 @@ def main():
     work = tempfile.mkdtemp(prefix='verif_hp_', dir='/var/tmp')
     try:
         for (policy, hp, agg) in POLICIES:
-            for compound in (False, True):
+            for (compound, in_values) in ((False, False), (True, False), (False, True)):
                 if compound and policy in ('C+', 'C#', 'C<', 'C>'):
                     continue
                 numeric = policy in ('C+', 'C<', 'C>', 'C#')
-                xml, decs = model(policy, hp, agg, compound, numeric)
+                xml, decs = model(policy, hp, agg, compound, numeric, in_values)
                 path = os.path.join(work, 'm.xml')
                 open(path, 'w', encoding='utf-8').write(xml)
                 pr = subprocess.run([exe, 'modelbatch', path, '{A: 1}', '{A: 2}', '{A: 3}'], capture_output=True, text=True, timeout=1200)
@@ -122,12 +124,12 @@ def main():
                     for a in (1, 2, 3):
                         cases += 1
                         g = got[(name, '{A: %d}' % a)]
-                        e = expected(policy, rules, a, compound)
+                        e = expected(policy, rules, a, compound, in_values)
                         good = g.startswith('null') if e == 'null' else g == e
                         if not good:
                             nfail += 1
                             if len(fails) < 5:
-                                fails.append('hit policy %s, rules %s, A = %d => %s (expected %s)' % (policy, ' | '.join('%s -> %s' % (i, ','.join(o)) for (i, o) in rules), a, g[:120], e))
+                                fails.append('hit policy %s%s, rules %s, A = %d => %s (expected %s)' % (policy, ' (allowed input values 1,2)' if in_values else '', ' | '.join('%s -> %s' % (i, ','.join(o)) for (i, o) in rules), a, g[:120], e))
     finally:
         import shutil
         shutil.rmtree(work, ignore_errors=True)
